@@ -87,6 +87,32 @@ def assignTo (te : TyEnv) (s : Store) (x : String) (v : Val) : Except Err Store 
   | some t => .ok (s.set x (conv t v))
   | none => .error .nameError
 
+/-- `T0 __tmp_assign_k = e0; T1 __tmp_assign_(k+1) = e1; …`: each initialiser is evaluated in the store reached so far (the earlier
+    temporaries are in scope, with their declared types) and converted to the declared type of its temporary -/
+def declTemps (te : TyEnv) (m : Mode) : Nat → List Ty → List Expr → Store → Except Err Store
+  | _, [], [], s => .ok s
+  | k, t :: ts, e :: es, s => do
+    let v ← eval te s e m
+    declTemps ((tmpName k, t) :: te) m (k + 1) ts es (s.set (tmpName k) (conv t v))
+  | _, _, _, _ => .error .typeError
+
+/-- `x0 = __tmp_assign_k; x1 = __tmp_assign_(k+1); …` -/
+def assignTemps (te : TyEnv) : Nat → List String → Store → Except Err Store
+  | _, [], s => .ok s
+  | k, x :: xs, s => do
+    let v ← (match s.get (tmpName k) with | some v => Except.ok v | none => .error .nameError)
+    let s' ← assignTo te s x v
+    assignTemps te (k + 1) xs s'
+
+/-- the temporaries `__tmp_assign_k … __tmp_assign_(k+n-1)` go out of scope: whatever the flat store held under these names before
+    (`old`) is back -/
+def dropTemps (old : Store) : Nat → Nat → Store → Store
+  | _, 0, s => s
+  | k, n + 1, s =>
+    dropTemps old (k + 1) n (match old.get (tmpName k) with
+      | some v => s.set (tmpName k) v
+      | none => s.filter (·.1 ≠ tmpName k))
+
 def exec (te : TyEnv) (fuel : Nat) (stmt : Stmt) (st : St) (m : Mode := .strict) : Except Err St :=
   match fuel with
   | 0 => .error .fuel
@@ -106,6 +132,18 @@ def exec (te : TyEnv) (fuel : Nat) (stmt : Stmt) (st : St) (m : Mode := .strict)
       let r ← binop op cur.toInt v.toInt m
       let s' ← assignTo te st.store x r
       pure { st with store := s' }
+    | .tuple _ _ _ => .error .typeError          -- not a statement of the sketch
+    | .ctuple k ts xs es =>
+      -- the temporaries are block-scoped locals.  The store is flat: a temporary that would shadow a declared name (a global or a
+      -- `for` variable in scope) is not modelled (`nameError`); the targets are names declared OUTSIDE the statement.  The model
+      -- ends the lifetime of the temporaries with the statement (in C++ they are dead until the end of the block; whether a later
+      -- statement may still NAME them is `WF.stmtOk`'s block scoping; a sketch that reads one later gets `nameError` here)
+      if (List.range ts.length).any (fun j => (te.lookup (tmpName (k + j))).isSome) then .error .nameError
+      else if xs.length ≠ ts.length then .error .typeError
+      else do
+        let s1 ← declTemps te m k ts es st.store
+        let s2 ← assignTemps te k xs s1
+        pure { st with store := dropTemps st.store k ts.length s2 }
     | .ifs c thn els => do
       let v ← eval te st.store c m
       if v.truthy then exec te fuel thn st m else exec te fuel els st m
